@@ -386,12 +386,23 @@ class GSeq(GhostIterable):
 
 
 class SymVec:
-    """a one-dimensional integer array of SYMBOLIC LENGTH n whose content is a function of the index: the default value overwritten by the recorded slice assignments
-    (numpy / Python slice semantics for positive steps: negative bounds count from the end, bounds are clipped to [0, n]), possibly re-indexed (strided views, concatenation).
-    Reading position k (a symbolic integer) gives an if-then-else term.  Models: np.zeros(n) with symbolic n, v[a:b:c] = x, v[a:b:c], np.concatenate, len, enumerate (loop cut)."""
+    """a one-dimensional integer array of SYMBOLIC LENGTH n whose content is a function of the index: a base content (a constant, or a function of the index for strided
+    views / concatenations / element-wise arithmetic) overwritten by the recorded slice assignments (numpy / Python slice semantics for positive steps: negative bounds count
+    from the end, bounds are clipped to [0, n]).  Reading position k (a symbolic integer) gives an if-then-else term.  Models: np.zeros(n) / np.linspace(0, n-1, n, dtype=int)
+    with symbolic n, v[a:b:c] = x (scalar or array), v[a:b:c], v // c, v + c, np.concatenate, len, enumerate (loop cut)."""
 
-    def __init__(self, n, read=None, default=0, proto=None):
+    def __init__(self, n, read=None, default=0, proto=None, view=None):
         self.n, self.default, self.writes, self._read, self.proto = n, default, [], read, proto
+        self._view = view       # (base, start, step): a strided VIEW - reads go to the base array as it is at the time of the read (numpy aliasing)
+
+    def _freeze(self):
+        """the value of this array NOW, as a new array (what numpy's eager element-wise arithmetic reads): later assignments to the original are not seen"""
+        if self._view is not None:
+            base, a, step = self._view
+            return SymVec(self.n, view=(base._freeze(), a, step))
+        c = SymVec(self.n, read=self._read, default=self.default)
+        c.writes = list(self.writes)
+        return c
 
     # index helpers (z3 terms)
     @staticmethod
@@ -418,25 +429,35 @@ class SymVec:
         return eff(sl.start, z3.IntVal(0)), eff(sl.stop, n), step
 
     def __setitem__(self, idx, v):
-        if self._read is not None:
+        import z3
+        if self._view is not None:
             raise Unsupported("assignment through a view of a symbolic-length array")
+        if isinstance(v, SymVec):
+            v = v._freeze()
         if isinstance(idx, slice):
             self.writes.append((self._bounds(idx), v))
         else:
-            import z3
             zi = self._z(idx)
             self.writes.append(((zi, zi + 1, 1), v))
 
     def get(self, k):
         """value at position k (Poly / int), 0 <= k < n assumed by the caller"""
         import z3
-        if self._read is not None:
-            return self._read(k)
         zk = self._z(k)
-        val = self._z(self.default) if not isinstance(self.default, Poly) else self.default.to_z3()
+        if self._view is not None:
+            base, a, step = self._view
+            return base.get(Poly.atom(a + zk * step, isint=True))
+        if self._read is not None:
+            val = self._read(k).to_z3()
+        else:
+            val = self._z(self.default) if not isinstance(self.default, Poly) else self.default.to_z3()
         for (a, b, step), v in self.writes:
             cond = z3.And(zk >= a, zk < b, (zk - a) % step == 0)
-            val = z3.If(cond, self._z(v), val)
+            if isinstance(v, SymVec):
+                vv = v.get(Poly.atom((zk - a) / step, isint=True)).to_z3()      # array assigned to a slice: element (k - start) / step
+            else:
+                vv = self._z(v)
+            val = z3.If(cond, vv, val)
         return Poly.atom(z3.simplify(val), isint=True)
 
     def __getitem__(self, idx):
@@ -445,9 +466,27 @@ class SymVec:
             a, b, step = self._bounds(idx)
             # number of selected positions: ceil((b - a) / step) when b > a
             cnt = z3.If(b > a, (b - a + step - 1) / step, z3.IntVal(0))
-            base = self
-            return SymVec(Poly.atom(z3.simplify(cnt), isint=True), read=lambda j, a=a, step=step: base.get(Poly.atom(a + self._z(j) * step, isint=True)))
+            return SymVec(Poly.atom(z3.simplify(cnt), isint=True), view=(self, a, step))
         return self.get(idx)
+
+    def _map(self, fn):
+        base = self._freeze()
+        return SymVec(self.n, read=lambda j: fn(base.get(j)))
+
+    def __floordiv__(self, c):
+        return self._map(lambda x: x // c)
+
+    def __add__(self, c):
+        if isinstance(c, SymVec):
+            raise Unsupported("sum of two symbolic-length arrays")
+        return self._map(lambda x: x + c)
+
+    __radd__ = __add__
+
+    def __mul__(self, c):
+        return self._map(lambda x: x * c)
+
+    __rmul__ = __mul__
 
     @staticmethod
     def concatenate(parts):
@@ -455,7 +494,7 @@ class SymVec:
         parts = list(parts)
         if len(parts) != 2 or not all(isinstance(p, SymVec) for p in parts):
             raise Unsupported("concatenate of other than two symbolic-length arrays")
-        a, b = parts
+        a, b = parts[0]._freeze(), parts[1]._freeze()
         na = SymVec._z(a.n)
         n = a.n + b.n
 
@@ -2003,6 +2042,31 @@ def _m_npzeros(interp, f, args, kw):
     if args and isinstance(args[0], Poly) and not args[0].is_const():
         return SymVec(args[0])
     return f(*args, **kw)
+
+
+@model(np.linspace, doc="np.linspace(0, n - 1, n, dtype=int) with a symbolic n: the symbolic-length array [0, 1, ..., n-1]")
+def _m_nplinspace(interp, f, args, kw):
+    if len(args) >= 3 and isinstance(args[2], Poly) and not args[2].is_const():
+        a, b, n = args[:3]
+        if kw.get("dtype") is int and Poly._coerce(a).is_zero() and (Poly._coerce(b) - (n - 1)).is_zero():
+            return SymVec(n, read=lambda j: j if isinstance(j, Poly) else Poly.const(j))
+        raise Unsupported("np.linspace with symbolic arguments other than (0, n - 1, n, dtype=int)")
+    return f(*args, **kw)
+
+
+@model(np.ceil, math.ceil, np.floor, math.floor, doc="ceil / floor of a symbolic real: the integer c with c - 1 < x <= c (x <= c < x + 1)")
+def _m_ceil(interp, f, args, kw):
+    x = args[0]
+    if isinstance(x, Poly) and not x.is_const():
+        import z3
+        zx = x.to_z3()
+        if x.isint:
+            return x
+        zr = z3.ToReal(zx) if zx.sort() == z3.IntSort() else zx
+        return Poly.atom(-z3.ToInt(-zr) if f in (np.ceil, math.ceil) else z3.ToInt(zr), isint=True)
+    if isinstance(x, Poly):
+        x = x.to_python()
+    return f(x, *args[1:], **kw)
 
 
 @model(np.concatenate, doc="np.concatenate of two symbolic-length arrays")
